@@ -2589,8 +2589,11 @@ impl BrailleChars {
                 },
                 _ => {
                     for child in node.children() {
-                        if !child_meets_conditions(as_element(child)) {
-                            return false;
+                        match child.element() {
+                            Some(child) => if !child_meets_conditions(child) {
+                                return false;
+                            },
+                            None => return false,       // a leaf that isn't one of the above (e.g., "ms" or a misplaced "none") has a text child
                         }
                     }
                     true
